@@ -289,6 +289,64 @@ func vpH_C06_type_names() {
 	vpReach("end")
 }
 
+// the text next to everything else: a holder with every property populated (a reader that stops
+// early, or a property that shadows another, loses the text only then)
+func vpH_C06_populated_holder() {
+	tname := []string{"Object", "Actor", "Activity", "Question", "OrderedCollection", "Place"}[vpChoice(6)]
+	x := vpPopulated(vpTypeIndex(tname))
+	t := []byte{vpRange(0x20, 0x7e)}
+	f := []int{0, 2}[vpChoice(2)]
+	n := NaturalLanguageValues{{Ref: NilLangRef, Value: Content(t)}}
+	if f == 2 {
+		n = NaturalLanguageValues{{Ref: "en", Value: Content(t)}, {Ref: "fr", Value: Content("autre")}}
+	}
+	prop := vpChoice(5)
+	if prop == 4 && tname != "Actor" {
+		prop = 3
+	}
+	_ = OnObject(x, func(o *Object) error {
+		switch prop {
+		case 0:
+			o.Name = n
+		case 1:
+			o.Summary = n
+		case 2:
+			o.Content = n
+		case 3:
+			o.Source.Content = n
+		}
+		return nil
+	})
+	if prop == 4 {
+		_ = OnActor(x, func(a *Actor) error { a.PreferredUsername = n; return nil })
+	}
+	get := func(y Item) NaturalLanguageValues {
+		var out NaturalLanguageValues
+		if prop == 4 {
+			_ = OnActor(y, func(a *Actor) error { out = a.PreferredUsername; return nil })
+			return out
+		}
+		_ = OnObject(y, func(o *Object) error {
+			switch prop {
+			case 0:
+				out = o.Name
+			case 1:
+				out = o.Summary
+			case 2:
+				out = o.Content
+			default:
+				out = o.Source.Content
+			}
+			return nil
+		})
+		return out
+	}
+	codec := vpChoice(2)
+	cell := "populated-holder/" + tname + "/" + []string{"name", "summary", "content", "source.content", "preferredUsername"}[prop] + "/" + []string{"json", "gob"}[codec]
+	vpC06Check(cell, codec, x, get, f, t)
+	vpReach("end")
+}
+
 // texts that look like escape sequences: a backslash followed by any byte, inside other text
 func vpH_C06_backslash() {
 	c := vpByte()
